@@ -1,47 +1,9 @@
-(* C02 simulation, part 3: the events that move what P2 reads, one lemma per event. *)
+(* C02 simulation: own-thread events that need an argument, and those the observer reacts to (heavy). *)
 From Coq Require Import List ZArith NArith Bool Lia.
 From RecordUpdate Require Import RecordSet.
 From PC.Base Require Import Assoc.
-From PC.Sup Require Import Model Monitors Tactics Sim ObsFacts Effects RelCore LemC02 RelC02t RelC02b.
+From PC.Sup Require Import Model Monitors Tactics Sim ObsFacts Effects RelCore LemC02 RelC02defs.
 Import ListNotations RecordSetNotations.
-
-Lemma opt_eqb_Z_eq a b : opt_eqb Z.eqb a b = true -> a = b.
-Proof. destruct a, b; cbn; try discriminate; auto. intros H. apply Z.eqb_eq in H. now subst. Qed.
-
-Lemma W4_W2 o : W4 o = false -> W2 o = false.
-Proof. unfold W4, W2. destruct (w_commit o), (w_sdlag o); cbn; auto. Qed.
-
-Ltac own_tac HP H :=
-  kind_cases H; split_andb; subst;
-  match goal with E : get ?th (thinst ?s) = Some ?i, E0 : get ?i (insts ?s) = Some ?x |- _ =>
-    intros j9 x9 xo9 Hx9 Hxo9; unfold set_pc in Hx9; autorewrite with sup in Hx9; cbn [fst snd] in Hx9;
-    destruct (N.eqb_spec i j9) as [<-|Hne];
-    [ rewrite E0 in Hx9; cbn in Hx9; injection Hx9 as <-; pose proof (HP _ _ _ E0 Hxo9) as HPx; p2_pre; destruct HPx as [Pcommit Pstop Pexited Palive Pcode Pdecided Prelaunch Pgaveup Prestarts Ppre Pfstopped Prunctx Pendst Pgone Pnostop Pstatus]; constructor
-    | eapply P2_frame; [apply (HP j9 x9 xo9 Hx9 Hxo9)|apply ikeep_refl|apply okeep_refl|apply vrel_vkeep; vrel_tac|apply wkeep_refl] ]
-  end;
-  try match goal with E : pc _ = _ |- _ => rewrite E in * end;
-  try (p2_clause; fail).
-
-
-Ltac okeep_use Ok :=
-  let O1 := fresh "O" in let O2 := fresh "O" in let O3 := fresh "O" in let O4 := fresh "O" in let O5 := fresh "O" in let O6 := fresh "O" in
-  destruct Ok as (O1 & O2 & O3 & O4 & O5 & O6); cbn in O1, O2, O3, O4, O5, O6.
-
-Ltac w_contra Wlem Et :=
-  let Hw := fresh in let Hs := fresh in intros Hw Hs; try apply W4_W2 in Hw; apply (Wlem _ _ _ Et) in Hw;
-  match goal with Exo : get ?i (oi ?o) = Some ?x |- _ => rewrite (oi_get_some _ _ _ Exo) in Hw end; cbn in *; congruence.
-
-(* combined step of model and observer for an event about instance i whose observer reaction has the common shape *)
-Ltac comb_tac HP i E0 Hshape Hwk :=
-  let j9 := fresh "j" in let x9 := fresh "x" in let xo9 := fresh "xo" in let Hx9 := fresh "Hx" in let Hxo9 := fresh "Hxo" in
-  let xo := fresh "xo" in let Exo := fresh "Exo" in let Ok := fresh "Ok" in let Hne := fresh "Hne" in let HPx := fresh "HPx" in
-  intros j9 x9 xo9 Hx9 Hxo9; unfold set_pc in Hx9; autorewrite with sup in Hx9; cbn [fst snd] in Hx9;
-  destruct (Hshape j9 xo9 Hxo9) as (xo & Exo & Ok);
-  destruct (N.eqb_spec i j9) as [<-|Hne];
-  [ rewrite ?E0 in Hx9; cbn in Hx9; injection Hx9 as <-; pose proof (HP _ _ _ E0 Exo) as HPx; p2_pre;
-    destruct HPx as [Pcommit Pstop Pexited Palive Pcode Pdecided Prelaunch Pgaveup Prestarts Ppre Pfstopped Prunctx Pendst Pgone Pnostop Pstatus];
-    okeep_use Ok; constructor
-  | eapply P2_frame; [apply (HP j9 x9 xo Hx9 Exo)|apply ikeep_refl|exact Ok|apply vrel_vkeep; vrel_tac|exact Hwk] ].
 
 Section Own2.
 Context (cs : amap pconf).
@@ -95,95 +57,6 @@ Proof.
   left. match goal with Hr : l_runctx _ = true |- _ => destruct (Prunctx Hr) as [A|A]; [exact A|discriminate A] end.
 Qed.
 
-(* all own events that the observer's instance records do not react to *)
-Lemma P2all_own s o th e s' : Rc cs s o -> P2all s o -> oirr e = true -> step_own s th e = Some s' -> P2all s' o.
-Proof.
-  intros HRc HP Hirr H. destruct (own_special e) eqn:Hsp; [|eapply P2all_own_gen; eauto].
-  destruct e; try discriminate Hsp;
-    eauto using P2all_own_wait, P2all_own_code, P2all_own_decision, P2all_own_backoff, P2all_own_cancel.
-Qed.
-
-(* ---- what the window flags say after the events that can raise them ---------------------------------- *)
-
-Lemma note_late_W o i : W2 (note_late_commit o i) = false -> o_stopreq (oi_get o i) = false /\ W2 o = false.
-Proof.
-  unfold note_late_commit. destruct (o_stopreq (oi_get o i)); [|auto].
-  destruct (stopping o i); unfold W2; cbn; rewrite ?orb_true_r; discriminate.
-Qed.
-
-Lemma W_RunChecked o th i : get th (o_th o) = Some i ->
-  W2 (obs_step cs o (th, ERunChecked false)) = false -> o_stopreq (oi_get o i) = false.
-Proof.
-  intros Et. unfold obs_step. cbn [ev_inst fst snd]. rewrite Et. rewrite W_refresh, W_oi_upd. intros H. now apply note_late_W in H.
-Qed.
-Lemma W_BackoffElapsed o th i : get th (o_th o) = Some i ->
-  W2 (obs_step cs o (th, EBackoffElapsed)) = false -> o_stopreq (oi_get o i) = false.
-Proof.
-  intros Et. unfold obs_step. cbn [ev_inst fst snd]. rewrite Et. rewrite W_refresh, W_oi_upd. intros H. now apply note_late_W in H.
-Qed.
-Lemma W_NoRestart o th i : W2 (obs_step cs o (th, ENoRestart i)) = false -> o_commit (oi_get o i) = false.
-Proof.
-  unfold obs_step. cbn [ev_inst fst snd]. rewrite W_refresh, W_oi_upd. unfold W2. cbn.
-  destruct (o_commit (oi_get o i)); [rewrite orb_true_r; discriminate|auto].
-Qed.
-Lemma W_StopPending o th i : W2 (obs_step cs o (th, EStopPending i)) = false -> o_commit (oi_get o i) = false.
-Proof.
-  unfold obs_step. cbn [ev_inst fst snd]. rewrite W_refresh, W_oi_upd. unfold W2. cbn.
-  destruct (o_commit (oi_get o i)); [rewrite orb_true_r; discriminate|auto].
-Qed.
-Lemma W_StopEnter o th i cancel : W2 (obs_step cs o (th, EStopEnter i cancel)) = false -> cancel && o_commit (oi_get o i) = false.
-Proof.
-  unfold obs_step. cbn [ev_inst fst snd]. rewrite W_refresh, W_oi_upd. unfold W2. cbn.
-  destruct (cancel && o_commit (oi_get o i)); [rewrite orb_true_r; discriminate|auto].
-Qed.
-Lemma W_ShutdownOrder o th order i : W2 (obs_step cs o (th, EShutdownOrder order)) = false -> memN i order = true ->
-  o_commit (oi_get o i) = false.
-Proof.
-  unfold obs_step. cbn [ev_inst fst snd]. rewrite W_refresh. unfold W2. cbn.
-  rewrite (fold_oi_upd_proj w_commit), (fold_oi_upd_proj w_sdlag); try (intros; unfold oi_upd; destruct (get _ _); reflexivity).
-  cbn. intros H Hm. destruct (o_commit (oi_get o i)) eqn:E; [|reflexivity].
-  pose proof (existsb_mem (fun i : iid => o_commit (oi_get o i)) order i Hm E) as Hx. cbn beta in Hx.
-  apply orb_false_iff in H. destruct H as [H _]. apply orb_false_iff in H. destruct H as [_ H].
-  exact (eq_trans (eq_sym Hx) H).
-Qed.
-
-(* the common shape of the observer's reaction: one instance record is updated, then refresh_succ *)
-Lemma obs_upd_shape o o0 i f j xo' : oi o0 = oi o -> get j (oi (refresh_succ (oi_upd i f o0))) = Some xo' ->
-  exists xo, get j (oi o) = Some xo /\ okeep (if N.eqb i j then f xo else xo) xo'.
-Proof.
-  intros E. rewrite refresh_get, oi_upd_get, E. destruct (get j (oi o)) as [xo|]; [|destruct (N.eqb i j); discriminate].
-  exists xo. split; [reflexivity|]. destruct (N.eqb i j); cbn in H; injection H as <-;
-    match goal with |- context[if ?c then _ else _] => destruct c end; unfold okeep; cbn; repeat split; reflexivity.
-Qed.
-
-Lemma own_obs_shape o th e i : get th (o_th o) = Some i ->
-  match e with
-  | ERunChecked false => forall j xo', get j (oi (obs_step cs o (th, e))) = Some xo' ->
-      exists xo, get j (oi o) = Some xo /\ okeep (if N.eqb i j then xo <| o_commit := true |> else xo) xo'
-  | EBackoffElapsed => forall j xo', get j (oi (obs_step cs o (th, e))) = Some xo' ->
-      exists xo, get j (oi o) = Some xo /\ okeep (if N.eqb i j then xo <| o_elapsed := true |> <| o_commit := true |> else xo) xo'
-  | EInstExit => forall j xo', get j (oi (obs_step cs o (th, e))) = Some xo' ->
-      exists xo, get j (oi o) = Some xo /\ okeep (if N.eqb i j then xo <| o_gone := true |> else xo) xo'
-  | ELaunch true => forall j xo', get j (oi (obs_step cs o (th, e))) = Some xo' ->
-      exists xo, get j (oi o) = Some xo /\
-        okeep (if N.eqb i j then xo <| o_launches := S (o_launches xo) |> <| o_alive := true |> <| o_elapsed := false |> <| o_commit := false |> else xo) xo'
-  | ELaunch false => forall j xo', get j (oi (obs_step cs o (th, e))) = Some xo' ->
-      exists xo, get j (oi o) = Some xo /\ okeep (if N.eqb i j then xo <| o_commit := false |> else xo) xo'
-  | _ => True
-  end.
-Proof.
-  intros Et. destruct e; auto; try (destruct term); try (destruct ok); auto;
-  intros j xo'; unfold obs_step; cbn [ev_inst fst snd]; rewrite Et; intros H; eapply obs_upd_shape in H; eauto.
-  all: unfold note_late_commit; repeat match goal with |- context[if ?b then _ else _] => destruct b end; reflexivity.
-Qed.
-
-Lemma own_th s o th i x : Rc cs s o -> get th (thinst s) = Some i -> get i (insts s) = Some x ->
-  get th (o_th o) = Some i /\ exists xo, get i (oi o) = Some xo.
-Proof.
-  intros HRc Et Ex. split; [now rewrite <- (rc_th _ _ _ HRc)|].
-  destruct (rc_inst _ _ _ HRc _ _ Ex) as (xo & Exo & _). eauto.
-Qed.
-
 Lemma P2all_own_obs s o th e s' : Rc cs s o -> P2all s o -> oirr e = false -> step_own s th e = Some s' ->
   P2all s' (obs_step cs o (th, e)).
 Proof.
@@ -191,15 +64,14 @@ Proof.
   destruct e; try discriminate Hirr; try destruct term; try destruct ok; try discriminate Hirr;
   kind_cases H; split_andb; subst;
   match goal with E : get ?th (thinst ?s) = Some ?i, E0 : get ?i (insts ?s) = Some ?x |- _ =>
-    destruct (own_th _ _ _ _ _ HRc E E0) as (Et & xo0 & Exo0);
-    match goal with |- P2all _ (obs_step _ _ (_, ?ev)) => pose proof (own_obs_shape o th ev i Et) as Hshape; cbn beta iota in Hshape end;
+    destruct (own_th cs _ _ _ _ _ HRc E E0) as (Et & xo0 & Exo0);
+    match goal with |- P2all _ (obs_step _ _ (_, ?ev)) => pose proof (own_obs_shape cs o th ev i Et) as Hshape; cbn beta iota in Hshape end;
     comb_tac HP i E0 Hshape Hwk
   end.
-  all: try match goal with E : pc _ = _ |- _ => rewrite E in * end.
-  all: rewrite ?N.eqb_refl in *.
-  all: try (p2_clause; fail).
-  all: try (w_contra (W_RunChecked) Et; fail).
-  all: try (w_contra (W_BackoffElapsed) Et; fail).
+  all: try match goal with E : pc _ = _ |- _ => rewrite E end.
+  all: try (p2_goal; fail).
+  all: try (w_contra (W_RunChecked cs) Et; fail).
+  all: try (w_contra (W_BackoffElapsed cs) Et; fail).
   all: try (let Hw := fresh in intros Hw; pose proof (proj2 Hwk Hw); p2_clause; fail).
   all: try (intros _ _; match goal with Pd : forall c0, IBackoff ?c = IWillRestart c0 \/ _ -> _ |- _ =>
               destruct (Pd c) as (A & B); [right; right; reflexivity|]; exists c; cbn in *; repeat split; try congruence; apply B end; fail).
